@@ -464,7 +464,9 @@ class Trees(Profile):
                 must = set(np.nonzero(du < r_nat - eps)[0].tolist())
                 may = set(np.nonzero(dl <= r_nat + eps)[0].tolist())
                 pspec = op["points"][pi]
-                if isinstance(pspec, dict) and coords == "nodes" and csys == "spherical" and metric == "haversine" and "node_lon" in W.source("g0").shipped and not W.source("g0").spec.get("dialect", {}).get("lon360"):
+                sh_ = W.source("g0").shipped
+                stored64 = "node_lon" in sh_ and sh_["node_lon"].dtype.kind in "iu" or ("node_lon" in sh_ and sh_["node_lon"].dtype == np.float64 and sh_["node_lat"].dtype == np.float64)
+                if isinstance(pspec, dict) and coords == "nodes" and csys == "spherical" and metric == "haversine" and stored64 and not W.source("g0").spec.get("dialect", {}).get("lon360"):
                     # the query point is bit-identical to a stored node position: its distance is
                     # exactly 0 <= r for every r >= 0 (the ball is closed) - not a tie
                     must.add(pspec["elem"] % n)
